@@ -89,6 +89,17 @@ theorem siblings_keep_parent (h : Heap) (s : GoSlice) (dirs : List Str) (hv : Va
   let r := read_keeps h _ t ht (siblings_independent h s dirs hv).1
   ⟨r.1, r.2.1⟩
 
+/-- **any interleaving of nested loads** (siblings, children of children — `runScript`): no array that existed before
+is changed, every list created on the way is still valid at the end, and the lists the script started with are still
+the first ones -/
+theorem script_keeps_everything (h : Heap) (opts : List GoSlice) (script : List (Nat × Str)) (hv : ∀ s ∈ opts, Valid h s)
+    (t : GoSlice) (ht : Valid h t) :
+    read (runScript h opts script).1 t = read h t ∧ full (runScript h opts script).1 t = full h t ∧
+      ∃ more, (runScript h opts script).2 = opts ++ more :=
+  let r := runScript_keeps script h opts hv
+  let k := read_keeps h _ t ht r.1
+  ⟨k.1, k.2.1, r.2.2⟩
+
 theorem take_set_ge {α : Type} (l : List α) (k : Nat) (x : α) : (l.set k x).take k = l.take k := by
   induction l generalizing k with
   | nil => simp
